@@ -288,6 +288,7 @@ Proof.
   destruct (h2_write_data_plain frame frame_fin (g_fin_last q) w s1 (filter nonempty chunks)) as [[s2 e2'] ended'].
   inversion H; subst.
   destruct e2'; [reflexivity|]. destruct ended'; [reflexivity|].
+  destruct (g_aborted q); [reflexivity|].
   destruct (w (fst st2) endstream) as [[s3 n3] e3]. reflexivity.
 Qed.
 
